@@ -545,6 +545,160 @@ fn concurrent(threads: usize, ops: usize, seed: u64, rep: &mut Report) {
     rep.add("concurrent_thread_ops", (threads * ops) as u64);
 }
 
+
+// ---- payloads with large alignment: the distance between the reference count and the value
+// ---- depends on align_of::<T>(); everything the model says for `Tracked` must hold for them too
+macro_rules! aligned_payload {
+    ($name:ident, $al:literal) => {
+        #[repr(align($al))]
+        pub struct $name(pub Tracked, pub u8);
+        impl AsRef<Tracked> for $name {
+            fn as_ref(&self) -> &Tracked {
+                &self.0
+            }
+        }
+        impl From<Tracked> for $name {
+            fn from(t: Tracked) -> Self {
+                $name(t, 0x5a)
+            }
+        }
+    };
+}
+aligned_payload!(Al16, 16);
+aligned_payload!(Al32, 32);
+aligned_payload!(Al64, 64);
+aligned_payload!(Al128, 128);
+aligned_payload!(Al4096, 4096);
+
+enum HA<P: 'static> {
+    A(CArc<P>),
+    S(CArcSome<P>),
+    O(CArc<cglue::trait_group::c_void>),
+}
+
+fn aligned_history<P: AsRef<Tracked> + From<Tracked> + Send + Sync + 'static>(name: &str, rng: &mut Rng, len: usize, rep: &mut Report) {
+    let t = Tracked::new();
+    let id = t.id;
+    let arc: Arc<P> = Arc::new(P::from(t));
+    let addr = &*arc as *const P as usize;
+    if addr % std::mem::align_of::<P>() != 0 {
+        rep.violation("C10:harness", "misaligned payload", name);
+    }
+    let weak = Arc::downgrade(&arc);
+    let mut pool: Vec<HA<P>> = vec![HA::A(CArc::from(arc))];
+    let mut trace = vec![];
+    for _ in 0..len {
+        if pool.is_empty() {
+            break;
+        }
+        let i = rng.below(pool.len());
+        let op = rng.below(8);
+        trace.push((op, i));
+        match op {
+            0 | 1 => {
+                let c = match &pool[i] { HA::A(h) => HA::A(h.clone()), HA::S(h) => HA::S(h.clone()), HA::O(h) => HA::O(h.clone()) };
+                pool.push(c);
+            }
+            2 => {
+                let h = pool.swap_remove(i);
+                pool.push(match h { HA::A(h) => match h.transpose() { Some(s) => HA::S(s), None => continue }, HA::S(s) => HA::A(CArc::from(Some(s))), o => o });
+            }
+            3 => {
+                let h = pool.swap_remove(i);
+                pool.push(match h { HA::A(h) => HA::O(h.into_opaque()), HA::S(s) => HA::O(CArc::<P>::from(Some(s)).into_opaque()), o => o });
+            }
+            4 => {
+                // take: the handle becomes empty, the taken one lives on
+                if let HA::A(h) = &mut pool[i] {
+                    let taken = h.take();
+                    let empty_now = h.as_ref().is_none();
+                    if !empty_now { rep.violation("C10:take-left-a-handle", &format!("{}: CArc::take left the source non-empty", name), &format!("{:?}", trace)); }
+                    pool[i] = HA::A(taken);
+                }
+            }
+            5 => match &pool[i] {
+                HA::A(h) => { if h.as_ref().map(|p| p as *const P as usize) != Some(addr) || h.as_ref().map(|p| p.as_ref().id) != Some(id) { rep.violation("C10:deref-other-value", &format!("{}: handle dereferences to another value", name), &format!("{:?}", trace)); } }
+                HA::S(h) => { let p: &P = &**h; if p as *const P as usize != addr || p.as_ref().id != id { rep.violation("C10:deref-other-value", &format!("{}: handle dereferences to another value", name), &format!("{:?}", trace)); } }
+                HA::O(_) => {}
+            },
+            _ => { drop(pool.swap_remove(i)); }
+        }
+        let live = pool.len();
+        let real = weak.strong_count();
+        if real != live {
+            rep.violation(if real > live { "C10:count-too-high" } else { "C10:count-too-low" }, &format!("{} (align {}): strong count {} with {} live handles after ops {:?}", name, std::mem::align_of::<P>(), real, live, trace), &format!("{:?}", trace));
+            // do not continue with a count we know is wrong: dropping the pool could free live memory
+            std::mem::forget(pool);
+            return;
+        }
+        if live > 0 && tracked::drops_of(id) != 0 {
+            rep.violation("C10:payload-dropped-early", &format!("{}: payload destroyed while {} handles are alive", name, live), &format!("{:?}", trace));
+            std::mem::forget(pool);
+            return;
+        }
+    }
+    drop(pool);
+    if weak.strong_count() != 0 || tracked::drops_of(id) != 1 {
+        rep.violation("C10:payload-not-dropped-exactly-once", &format!("{}: after the last handle strong={} drops={}", name, weak.strong_count(), tracked::drops_of(id)), &format!("{:?}", trace));
+    }
+    rep.add("aligned_histories", 1);
+}
+
+fn aligned(rng: &mut Rng, n: u64, rep: &mut Report) {
+    for k in 0..n {
+        let len = 1 + rng.below(40);
+        match k % 5 {
+            0 => aligned_history::<Al16>("Al16", rng, len, rep),
+            1 => aligned_history::<Al32>("Al32", rng, len, rep),
+            2 => aligned_history::<Al64>("Al64", rng, len, rep),
+            3 => aligned_history::<Al128>("Al128", rng, len, rep),
+            _ => aligned_history::<Al4096>("Al4096", rng, len, rep),
+        }
+    }
+}
+
+// ---- thread-safety parity with Arc: CArc<T>/CArcSome<T> may be Send (Sync) only where Arc<T> is.
+// ---- Read out with the inherent-const-shadows-trait-const probe: always compiles, decided at run time.
+mod parity {
+    use super::*;
+    use std::cell::Cell;
+    use std::marker::PhantomData;
+    pub struct IsSend<T: ?Sized>(pub PhantomData<T>);
+    pub struct IsSync<T: ?Sized>(pub PhantomData<T>);
+    pub trait No { const YES: bool = false; }
+    impl<T: ?Sized> No for IsSend<T> {}
+    impl<T: ?Sized> No for IsSync<T> {}
+    impl<T: ?Sized + Send> IsSend<T> { pub const YES: bool = true; }
+    impl<T: ?Sized + Sync> IsSync<T> { pub const YES: bool = true; }
+    pub struct SendSync(pub u64);
+    pub struct SendNotSync(pub Cell<u64>);
+    pub struct SyncNotSend(pub PhantomData<std::sync::MutexGuard<'static, u64>>, pub u64);
+    pub struct Neither(pub *const u8);
+    macro_rules! row {
+        ($rep:expr, $t:ty, $name:expr) => {{
+            let arc = (IsSend::<Arc<$t>>::YES, IsSync::<Arc<$t>>::YES);
+            let carc = (IsSend::<CArc<$t>>::YES, IsSync::<CArc<$t>>::YES);
+            let some = (IsSend::<CArcSome<$t>>::YES, IsSync::<CArcSome<$t>>::YES);
+            for (what, got) in [("CArc", carc), ("CArcSome", some)] {
+                if got.0 && !arc.0 { $rep.violation(&format!("C10:more-thread-safe-than-Arc:{}:{}:Send", what, $name), &format!("{}<{}> is Send, Arc<{}> is not", what, $name, $name), ""); }
+                if got.1 && !arc.1 { $rep.violation(&format!("C10:more-thread-safe-than-Arc:{}:{}:Sync", what, $name), &format!("{}<{}> is Sync, Arc<{}> is not", what, $name, $name), ""); }
+            }
+            $rep.add("parity_cells", 4);
+            $rep.sample("C10 auto-trait parity row (payload: Arc / CArc / CArcSome as (Send,Sync))", &format!("{}: {:?} / {:?} / {:?}", $name, arc, carc, some));
+        }};
+    }
+    pub fn run(rep: &mut Report) {
+        // the probe must be able to say "no": a raw pointer payload is neither
+        if IsSend::<Arc<Neither>>::YES || IsSync::<Arc<Neither>>::YES || !IsSend::<Arc<SendSync>>::YES {
+            rep.violation("C10:harness", "auto-trait probe does not discriminate", "");
+        }
+        row!(rep, SendSync, "SendSync");
+        row!(rep, SendNotSync, "SendNotSync");
+        row!(rep, SyncNotSend, "SyncNotSend");
+        row!(rep, Neither, "Neither");
+    }
+}
+
 pub fn run(args: &Args, rep: &mut Report) {
     let mut rng = Rng::new(args.seed);
     let mode = args.kv.get("mode").map(|s| s.as_str()).unwrap_or("all");
@@ -590,6 +744,10 @@ pub fn run(args: &Args, rep: &mut Report) {
                 rep.add("histories_random", 1);
             }
         }
+    }
+    if mode == "all" || mode == "random" || mode == "aligned" {
+        aligned(&mut rng, args.get("aligned", args.count.min(3000)), rep);
+        parity::run(rep);
     }
     if mode == "all" || mode == "forged" {
         let n = args.get("forged", args.count.min(2000));
